@@ -149,7 +149,33 @@ def r05_4(ctx):
     r.ob("pairs are mapped in order (into_iter / filter_map / map)", "elems.into_iter().filter_map(" in t and ".map(" in t and "rev()" not in t, C.mloc(dc, dc), t[:90])
     r.ob("a string second element becomes the argument and is removed from the value array", "elems.get(1)" in t and "if argument.is_some() elems.remove(1)" in t, C.mloc(dc, dc), "get(1) … remove(1)")
     r.ob("the generated attribute is `v-model` / `v-model:<arg>`", "ns: {let sym = 'v-model'" in t.replace("IdentName", "") or "'v-model'" in t, C.mloc(dc, dc), "names built from the constant 'v-model'")
-    # the splice position (R08.1 G3) is shared
+    # position: in the hook that expands `v-models`, the decoupled attributes go where the attribute was removed
+    for hb in C.visitor_methods(ctx):
+        calls_dc = [n for n in walk(hb["body"]) if n.get("k") in ("Call", "MethodCall") and n.get("callee") == dc["path"]]
+        if not calls_dc:
+            continue
+        r.saw(hb["path"])
+        idx = HirIndex(hb)
+        removed = [n for n in walk(hb["body"]) if n.get("k") == "MethodCall" and n["method"] in ("remove",) and n["args"] and local_of(n["args"][0])]
+        rm_idx = local_of(removed[0]["args"][0]) if removed else None
+        ok = False
+        how = "no insertion of the decoupled attributes found"
+        for n in walk(hb["body"]):
+            if n.get("k") != "MethodCall" or not any(x is c for c in calls_dc for x in walk(n)):
+                continue
+            if n["method"] == "splice" and n["args"]:
+                rng = strip_transparent(n["args"][0])
+                fs = {f["name"]: f["e"] for f in rng.get("fields", [])} if rng.get("k") == "Struct" else {}
+                a, b_ = fs.get("start"), fs.get("end")
+                if a is not None and b_ is not None and local_of(a) and local_of(a) == local_of(b_) and local_of(a) == rm_idx:
+                    ok, how = True, "splice(%s..%s, ..) at the index the attribute was removed from" % (local_of(a)[0], local_of(a)[0])
+                else:
+                    how = "splice over `%s`, which is not the empty range at the removed index" % expr_str(rng)[:40]
+            elif n["method"] in ("extend", "append", "push", "extend_from_slice"):
+                how = "%s(..) appends the expansion at the end of the attribute list: attributes written after `v-models` now come before it" % n["method"]
+            elif n["method"] == "insert":
+                how = "insert of the iterator as one element?"
+        r.ob("%s puts the decoupled attributes where `v-models` stood" % hb["name"], ok, C.mloc(hb, calls_dc[0]), how)
     return r
 
 
@@ -186,6 +212,7 @@ def r05_5(ctx):
 def rules(ctx):
     from ..engine import only
     return [r05_1, r05_2, r05_3, r05_4, r05_5,
+            only(c01.r01_5, lambda k: "de-duplicated" in k, "a user-written `onUpdate:x` listener beside v-model is merged with the generated one, not replaced"),
             only(c01.r01_1, lambda k: k.startswith(("component predicate", "the Fragment name")), "component vs element host decides prop-style vs directive-style v-model"),
             only(c11.r11_3, lambda k: "visit_mut_jsx_opening_element" in k or "decouple" in k or k.startswith("scan"), "v-models expansion keeps order and position")]
 
